@@ -191,15 +191,23 @@ def run_seq(spec, vals, ctx, report_single=True):
         if L.hazardous(spec, v0):
             continue
         c = outcome(lambda: ct.validate(obj, "x", v))
-        if h is not None and hasattr(h, "validate") and spec[0] != "Module":
+        if not fast and spec[0] != "Module":
+            # no compiled path at all (every alternative is Python-validated): only the compound law applies
+            ctx.label("no-fast-path")
+            p = c
+        elif h is not None and hasattr(h, "validate") and spec[0] != "Module":
             p = outcome(lambda: h.validate(obj, "x", v))
         else:
             r = L.ref(spec, v)
             p = ("ok", r[1]) if r[0] == L.ACC else ("TE",)
         nontrivial = c[0] != "ok" or c[1] is not v
         problem = None
-        if (c[0] == "ok") != (p[0] == "ok"):
-            if not (p[0] == "EXC" and c[0] == "TE") and not (p[0] == "EXC" and c[0] == "EXC"):
+        if p[0] == "EXC":
+            # the Python method neither accepted nor raised TraitError (the value's own protocol raised inside it,
+            # e.g. int(inf) in a CInt alternative, `array in enum`): the statement fixes no decision for the fast path
+            ctx.label("python-passthrough")
+        elif (c[0] == "ok") != (p[0] == "ok"):
+            if True:
                 sig = ""
                 if c[0] == "ok" and any(isinstance(v, t) and type(v) is not t for t in coerce_types(h)):
                     sig = "/coerce-type-subclass"      # root-cause signature of F15
